@@ -17,3 +17,34 @@ for dp, dns, fns in os.walk(os.path.join(root, "nrel", "hive")):
                 out.append([rel, qn, [x.arg for x in a.posonlyargs + a.args + a.kwonlyargs]])
 json.dump(sorted(out), open(os.path.join(os.path.dirname(os.path.dirname(os.path.abspath(__file__))), "hivecheck", "baseline_symbols.json"), "w"))
 print(len(out), "symbols")
+
+# ---- argument style of every (callee name, parameter) in the pinned tree: hivecheck/baseline_calls.json (canon.py, pass K)
+from hivecheck import canon
+sigs = canon.Sigs()
+trees = {}
+for dp, dns, fns in os.walk(os.path.join(root, "nrel", "hive")):
+    dns.sort()
+    for fn in sorted(fns):
+        if fn.endswith(".py"):
+            rel = os.path.relpath(os.path.join(dp, fn), root)
+            trees[rel] = ast.parse(open(os.path.join(dp, fn), encoding="utf-8").read())
+            sigs.add_tree(trees[rel])
+seen = {}
+for rel, tree in trees.items():
+    def walk(node, cls):
+        for ch in ast.iter_child_nodes(node):
+            c2 = ch.name if isinstance(ch, ast.ClassDef) else cls
+            if isinstance(ch, ast.Call):
+                nm = canon.call_name(ch)
+                sig = sigs.resolve(ch, cls) if nm else None
+                if sig:
+                    st = canon.arg_styles(ch, sig)
+                    if st:
+                        for key in canon.call_names(ch, cls):
+                            for p, s in st.items():
+                                seen.setdefault((key, p), set()).add(s)
+            walk(ch, c2)
+    walk(tree, None)
+rows = sorted([a, b, next(iter(s))] for (a, b), s in seen.items() if len(s) == 1)
+json.dump(rows, open(os.path.join(os.path.dirname(os.path.dirname(os.path.abspath(__file__))), "hivecheck", "baseline_calls.json"), "w"))
+print(len(rows), "single-style (callee, parameter) pairs;", sum(1 for s in seen.values() if len(s) > 1), "mixed")
